@@ -75,7 +75,7 @@ func newGPOSApplicable(table tables.GPOSLookup) applicable {
 }
 
 func (ap applicable) apply(c *otApplyContext) bool {
-	return ap.digest.mayHave(gID(c.buffer.cur(0).Glyph)) && ap.objApply(c)
+	return ap.digest.mayHave(gid16(c.buffer.cur(0).Glyph)) && ap.objApply(c)
 }
 
 type getSubtablesContext []applicable
@@ -155,7 +155,7 @@ func (m otApplyContextMatcher) mayMatch(info *GlyphInfo, glyphData []uint16) uin
 	}
 
 	if m.matchFunc != nil {
-		if m.matchFunc(gID(info.Glyph), glyphData[0]) {
+		if m.matchFunc(gid16(info.Glyph), glyphData[0]) {
 			return yes
 		}
 		return no
@@ -453,7 +453,7 @@ func (c *otApplyContext) matchPropertiesMark(glyph GID, glyphProps uint16, match
 		if set == nil { // NULL offset in the mark glyph sets: no glyph is covered
 			return false
 		}
-		_, has := set.Index(gID(glyph))
+		_, has := set.Index(gid16(glyph))
 		return has
 	}
 
@@ -472,7 +472,7 @@ func (c *otApplyContext) setGlyphClass(glyphIndex GID) {
 }
 
 func (c *otApplyContext) setGlyphClassExt(glyphIndex_ GID, classGuess uint16, ligature, component bool) {
-	glyphIndex := gID(glyphIndex_)
+	glyphIndex := gid16(glyphIndex_)
 
 	c.digest.add(glyphIndex)
 
@@ -597,7 +597,7 @@ func (c *wouldApplyContext) wouldApplyLookupContext1(data tables.SequenceContext
 }
 
 func (c *wouldApplyContext) wouldApplyLookupContext2(data tables.SequenceContextFormat2, index int, glyphID GID) bool {
-	class, _ := data.ClassDef.Class(gID(glyphID))
+	class, _ := data.ClassDef.Class(gid16(glyphID))
 	var ruleSet tables.SequenceRuleSet
 	if int(class) < len(data.ClassSeqRuleSet) {
 		ruleSet = data.ClassSeqRuleSet[class]
@@ -637,7 +637,7 @@ func (c *wouldApplyContext) wouldApplyLookupChainedContext1(data tables.ChainedS
 }
 
 func (c *wouldApplyContext) wouldApplyLookupChainedContext2(data tables.ChainedSequenceContextFormat2, index int, glyphID GID) bool {
-	class, _ := data.InputClassDef.Class(gID(glyphID))
+	class, _ := data.InputClassDef.Class(gid16(glyphID))
 	var ruleSet tables.ChainedSequenceRuleSet
 	if int(class) < len(data.ChainedClassSeqRuleSet) {
 		ruleSet = data.ChainedClassSeqRuleSet[class]
@@ -668,7 +668,7 @@ func (c *wouldApplyContext) wouldMatchInput(input []uint16, matchFunc matcherFun
 	}
 
 	for i, glyph := range input {
-		if !matchFunc(gID(c.glyphs[i+1]), glyph) {
+		if !matchFunc(gid16(c.glyphs[i+1]), glyph) {
 			return false
 		}
 	}
@@ -1070,7 +1070,7 @@ func (c *otApplyContext) applyLookupContext1(data tables.SequenceContextFormat1,
 }
 
 func (c *otApplyContext) applyLookupContext2(data tables.SequenceContextFormat2, index int, glyphID GID) bool {
-	class, _ := data.ClassDef.Class(gID(glyphID))
+	class, _ := data.ClassDef.Class(gid16(glyphID))
 	var ruleSet tables.SequenceRuleSet
 	if int(class) < len(data.ClassSeqRuleSet) {
 		ruleSet = data.ClassSeqRuleSet[class]
@@ -1108,7 +1108,7 @@ func (c *otApplyContext) applyLookupChainedContext1(data tables.ChainedSequenceC
 }
 
 func (c *otApplyContext) applyLookupChainedContext2(data tables.ChainedSequenceContextFormat2, index int, glyphID GID) bool {
-	class, _ := data.InputClassDef.Class(gID(glyphID))
+	class, _ := data.InputClassDef.Class(gid16(glyphID))
 	var ruleSet tables.ChainedClassSequenceRuleSet
 	if int(class) < len(data.ChainedClassSeqRuleSet) {
 		ruleSet = data.ChainedClassSeqRuleSet[class]
